@@ -17,8 +17,9 @@ LEVEL_TEXT = ("Theorems C04_deleted_only_by_authentic_prune_in_scope, C04_prune_
               "C04_unrepaired_pipeline_refuted keeps the defect found on the unchanged pipeline (failed event still pruned: forged operation "
               "wipes the victim's log) as a machine-checked witness. The model (Model/Ingest.v deliver, Model/Node.v entry points) is tied to "
               "p2panda/src/processor/pipeline.rs + event.rs, p2panda/src/streams/stream.rs, forge.rs and the SQLite store on every run: a real "
-              "Node imports valid and forged operations (claiming other authors, the node itself, other topics), publishes, prunes and "
-              "replays; after every step all logs of all authors on both topics are dumped, compared with the model and checked by the oracle.")
+              "Node imports valid, forged and authentic-but-rejected operations (claiming other authors, the node itself, other topics; "
+              "signed by the log's author but forking the log / below a newer prune point / with a body the header does not commit to / "
+              "with inconsistent header fields), publishes, prunes and replays; after every step all logs of all authors on both topics are dumped, compared with the model and checked by the oracle.")
 LEVEL_NOTE = ("Trusted: Coq kernel + vm_compute; hand-written model; validate_operation abstract (C01); the sync entry point is covered by "
               "the model argument that process_operation builds the same Event for sync, import and replay (one function in stream.rs) and "
               "is exercised through import and replay only, not through a second networked node; tokio plumbing of the pipeline "
@@ -31,20 +32,75 @@ ASSUMPTIONS = ["every entry point reaches the pipeline through Event::new(operat
                "documented at StreamPublisher::import)",
                "events are processed one at a time (Pipeline::process awaits completion)"]
 TRUSTED = ["modelled not verified: SQLite DELETE semantics, sqlx, tokio channels/threads of the pipeline, acknowledgement bookkeeping"]
-RULE = ("quick: the finding's witness first; 8 fixed scenarios (forged prune-flagged operation below/at/above the victim's height via "
+RULE = ("quick: the finding's witness and the regression corpus first; 17 fixed scenarios (forged prune-flagged operation below/at/above the victim's height via "
         "import, forged operation claiming the node's own key, flag flipped after signing, valid prune by the author, cross-author and "
-        "cross-topic bystander logs, publish/prune of the node itself, replay) and 40 random step sequences over 3 authors x 2 topics; "
-        "thorough: 400 random. non-trivial = a case that contains a forged prune-flagged step while the claimed log is non-empty, or a "
+        "cross-topic bystander logs, publish/prune of the node itself, replay); 23 fixed scenarios with prune-flagged operations that "
+        "are VALIDLY SIGNED by the log's author and rejected for every other reason ingest_operation knows (fork / prune point at or "
+        "below the latest stored entry, also after a newer prune point; seq>0 without backlink, seq 0 with backlink; body not matching "
+        "the committed hash or size, body although the header claims none, payload hash with size 0, header version 2; a stored "
+        "operation's header re-delivered with another body / header only = AlreadyExists), against external logs and the node's own "
+        "log, each with entries below the claimed prune point in the store; one author pruning in two logs with decreasing, equal "
+        "and increasing prune points; 40 random step sequences over 3 authors x 2 topics + 10 with authentic-but-rejected imports "
+        "mixed in; thorough: 400 + 150 random. non-trivial = a case that contains a forged prune-flagged step while the claimed "
+        "log is non-empty, or a rejected prune-flagged import while the store holds entries its prune request would delete, or a "
         "successful prune with bystander logs present")
 NONTRIVIAL_FLOOR = 10
 
 
-def eop(a, t, seq, bl, p=0, b=1, c=0):
-    return {"a": a, "t": t, "seq": seq, "bl": bl, "p": p, "b": b, "c": c}
+FORGED = (1, 2, 5)              # not what the claimed author signed
+AUTH_INVALID = (3, 4, 6, 7, 8, 9)  # signed by the claimed author, rejected by validate_operation (see harness/c04 header)
+HEADER_OK = (0, 3, 6, 8)        # corruption kinds that leave the signed header itself valid (only the delivered body is wrong)
+
+
+def eop(a, t, seq, bl, p=0, b=1, c=0, src=None):
+    d = {"a": a, "t": t, "seq": seq, "bl": bl, "p": p, "b": b, "c": c}
+    if src is not None:
+        d["src"] = src
+    return d
+
+
+def consistent(o):
+    return (o["seq"] == 0) == (o["bl"] is None)
 
 
 def valid(o):
-    return o["c"] == 0 and ((o["seq"] == 0) == (o["bl"] is None))
+    """validate_operation on an op built from scratch (no src)."""
+    return o["c"] == 0 and consistent(o)
+
+
+def copy_of(ops, j, b=1, c=0):
+    """Op definition re-using the signed header of op j (or of its source) unchanged."""
+    while ops[j].get("src") is not None:
+        j = ops[j]["src"]
+    r = ops[j]
+    return eop(r["a"], r["t"], r["seq"], r["bl"], p=r["p"], b=b, c=c, src=j)
+
+
+def resolve(ops):
+    """Per op what the model sees: header hash number, delivered body, validate_operation."""
+    out = []
+    for i, o in enumerate(ops):
+        if o.get("src") is not None:
+            r = ops[o["src"]]
+            assert r.get("src") is None and o["c"] in (0, 3)
+            hdr_ok = r["c"] in HEADER_OK and consistent(r)
+            commits = (r["b"] == 1 and r["c"] != 6) or r["c"] in (3, 8)
+            if o["c"] == 3:
+                out.append({"hh": o["src"] + 1, "body": 1, "valid": False})
+            else:
+                out.append({"hh": o["src"] + 1, "body": 1 if (o["b"] and commits) else 0, "valid": hdr_ok})
+        else:
+            out.append({"hh": i + 1, "body": o["b"], "valid": valid(o)})
+    return out
+
+
+def klass(o, v):
+    """Generator-side class of an imported op (v = resolved validate_operation bit)."""
+    if v:
+        return "valid"
+    if o.get("src") is None and o["c"] in FORGED:
+        return "forged"
+    return "authentic_invalid"
 
 
 def ext_chain(ops, a, t, n, prune_at=()):
@@ -100,17 +156,141 @@ def fixed_cases():
     yield {"na": 2, "ops": ops, "steps": [["i", 0, v[2]], ["i", 0, v[0]], ["i", 0, v[1]], ["i", 0, len(ops) - 1], ["i", 0, v[3]]]}
 
 
-def random_case(rng):
+def imports(t, idx):
+    return [["i", t, j] for j in idx]
+
+
+def authentic_cases():
+    """Prune-flagged operations that carry a VALID signature of the log's author and are rejected all the same:
+    every rejection reason of ingest_operation, with entries below the claimed prune point present in the store."""
+    def base(n=5):
+        ops = []
+        v = ext_chain(ops, 1, 0, n)          # victim log, nothing pruned
+        w = ext_chain(ops, 2, 0, 2)          # bystanders: another author, and the victim's log of the other topic
+        u = ext_chain(ops, 1, 1, 2)
+        return ops, v, imports(0, v + w) + imports(1, u)
+
+    # (a) log integrity: fork / outdated prune point at or below the latest stored entry (SeqNumNonIncremental)
+    for seq, bl in ((4, "prev"), (2, "prev"), (1, ["b", 0]), (3, ["b", 1])):
+        ops, v, steps = base()
+        ops.append(eop(1, 0, seq, ["o", v[seq - 1]] if bl == "prev" else bl, p=1))
+        yield {"na": 3, "ops": ops, "steps": steps + [["i", 0, len(ops) - 1]]}
+    # ... all of them one after the other, seq 0 as well, then a genuine prune point, then older ones again and a replay
+    ops, v, steps = base()
+    k = len(ops)
+    ops += [eop(1, 0, 4, ["o", v[3]], p=1), eop(1, 0, 3, ["b", 0], p=1, b=0), eop(1, 0, 1, ["o", v[0]], p=1), eop(1, 0, 0, None, p=1),
+            eop(1, 0, 6, ["b", 2], p=1),                       # genuine prune point (gap allowed): accepted, deletes 0..4
+            eop(1, 0, 6, ["b", 3], p=1), eop(1, 0, 5, ["o", v[4]], p=1), eop(1, 0, 2, ["o", v[1]], p=1)]
+    yield {"na": 3, "ops": ops, "steps": steps + imports(0, range(k, k + 8)) + [["i", 0, k + 4], ["r", 0], ["i", 0, k + 6]]}
+    # an older / equal prune point after a newer one whose suffix is still stored: 0,1,2,3p,4,5 then forks at 5, 4, 3
+    ops = []
+    v = ext_chain(ops, 1, 0, 6, prune_at=(3,))
+    k = len(ops)
+    ops += [eop(1, 0, 5, ["o", v[4]], p=1), eop(1, 0, 4, ["b", 0], p=1), eop(1, 0, 3, ["o", v[2]], p=1)]
+    yield {"na": 2, "ops": ops, "steps": imports(0, v) + imports(0, range(k, k + 3)) + [["i", 0, v[3]], ["r", 0]]}
+    yield {"na": 2, "ops": ops, "steps": imports(0, v) + [["i", 0, k + 1]]}
+    # the same fork through the stream of the other topic: there it lies above the latest entry, is accepted and prunes the
+    # author's topic-1 log; delivered to topic 0 afterwards it is answered AlreadyExists (de-duplication is by hash, store-wide)
+    # and log-prune runs for the topic-0 log although it lies below that log's latest entry -- the author's own signed request
+    ops, v, steps = base()
+    ops.append(eop(1, 0, 3, ["b", 0], p=1))
+    yield {"na": 3, "ops": ops, "steps": steps + [["i", 1, len(ops) - 1], ["i", 0, len(ops) - 1]]}
+
+    # (b) validate_header on an authentic header: seq > 0 without backlink, seq 0 with backlink
+    ops, v, steps = base()
+    k = len(ops)
+    ops += [eop(1, 0, 5, None, p=1), eop(1, 0, 3, None, p=1), eop(1, 0, 9, None, p=1, b=0), eop(1, 0, 0, ["o", v[4]], p=1)]
+    yield {"na": 3, "ops": ops, "steps": steps + imports(0, range(k, k + 4))}
+    ops, v, steps = base()
+    ops.append(eop(1, 0, 5, None, p=1))
+    yield {"na": 3, "ops": ops, "steps": steps + [["i", 0, len(ops) - 1]]}
+
+    # (c, d) payload: body the header does not commit to / body although the header claims none / payload info
+    # inconsistent / size wrong; (and version 2) -- at the next free seq with the right backlink, below and above
+    for c in AUTH_INVALID:
+        ops, v, steps = base()
+        k = len(ops)
+        ops += [eop(1, 0, 5, ["o", v[4]], p=1, c=c), eop(1, 0, 2, ["o", v[1]], p=1, c=c), eop(1, 0, 9, ["b", 0], p=1, c=c)]
+        st = steps + imports(0, range(k, k + 3))
+        if c in (3, 6, 8):
+            # the very same signed header with the body it commits to: accepted, prunes; then the bad delivery once more
+            ops.append(copy_of(ops, k, b=1))
+            st += [["i", 0, len(ops) - 1], ["i", 0, k], ["i", 0, len(ops) - 1]]
+        yield {"na": 3, "ops": ops, "steps": st}
+    # shortest form of the second witness: one authentic prune-flagged header, wrong body
+    ops, v, steps = base(3)
+    ops.append(eop(1, 0, 3, ["o", v[2]], p=1, c=3))
+    yield {"na": 3, "ops": ops, "steps": steps + [["i", 0, len(ops) - 1]]}
+    # a stored prune point re-delivered with a wrong body (PayloadMismatch comes before AlreadyExists), header only
+    # (AlreadyExists: log-prune runs again), and with its body
+    ops = []
+    v = ext_chain(ops, 1, 0, 5, prune_at=(2,))
+    ops += [copy_of(ops, v[2], c=3), copy_of(ops, v[2], b=0), copy_of(ops, v[4], b=0)]
+    yield {"na": 2, "ops": ops, "steps": imports(0, v[:4]) + [["i", 0, 5], ["i", 0, 6], ["i", 0, v[2]], ["i", 0, 7], ["i", 0, v[4]], ["r", 0]]}
+
+    # (e) the node's own log: authentic forks / wrong bodies signed with the node's key, imported
+    ops = [eop(0, 0, 2, ["b", 0], p=1), eop(0, 0, 3, ["b", 1], p=1, b=0), eop(0, 0, 4, ["b", 2], p=1, c=3), eop(0, 0, 4, None, p=1),
+           eop(0, 0, 1, ["b", 0], p=1, c=6)]
+    yield {"na": 2, "ops": ops, "steps": [["p", 0, 0, 1]] * 4 + [["p", 1, 0, 1]] * 2 + imports(0, range(5))
+           + [["p", 0, 1, 0], ["i", 0, 0], ["r", 0]]}
+
+    # (f) one author, two logs (two topics), prune points in both, decreasing / equal / increasing across the logs
+    for n0, p0, n1, p1 in ((6, 4, 4, 2), (5, 3, 5, 3), (4, 2, 6, 4)):
+        ops = []
+        v = ext_chain(ops, 1, 0, n0, prune_at=(p0,))
+        u = ext_chain(ops, 1, 1, n1, prune_at=(p1,))
+        w = ext_chain(ops, 2, 1, 3, prune_at=(1,))
+        yield {"na": 3, "ops": ops, "steps": imports(0, v) + imports(1, u) + imports(1, w) + [["r", 1]]}
+    # ... and the node itself: prune at seq 3 on topic 0, then at seq 2 on topic 1, then at seq 1 on topic 0's ... (own logs)
+    yield {"na": 1, "ops": [], "steps": [["p", 0, 0, 1]] * 3 + [["p", 0, 1, 1]] + [["p", 1, 0, 1]] * 2 + [["p", 1, 1, 0], ["p", 1, 0, 1],
+                                          ["p", 1, 1, 1], ["p", 0, 0, 1], ["r", 1]]}
+
+
+def authentic_invalid_op(rng, ops, chains):
+    """Append an operation signed by its claimed author (external author or the node) that ingest may reject for a reason
+    other than authentication; mostly prune-flagged.  Returns [topic, index]."""
+    a = rng.choice([0, 1, 1, 2, 2])
+    t = rng.choice([0, 1])
+    seq = rng.randint(0, 6)
+    p = 1 if rng.random() < 0.85 else 0
+    own = chains.get((a, t)) or []
+    kind = rng.random()
+    if kind < 0.15 and own:
+        # a stored (or pruned) operation's own header again: other body / header only / as it was
+        j = rng.choice(own)
+        ops.append(copy_of(ops, j, b=rng.randint(0, 1), c=3 if rng.random() < 0.5 else 0))
+    elif kind < 0.55:
+        # fork or outdated prune point: valid on its own, log integrity decides
+        if seq == 0:
+            bl = None
+        elif own and seq - 1 < len(own) and rng.random() < 0.6:
+            bl = ["o", own[seq - 1]]
+        else:
+            bl = ["b", rng.randrange(3)]
+        ops.append(eop(a, t, seq, bl, p=p, b=rng.randint(0, 1)))
+    elif kind < 0.65:
+        # header-level inconsistency on an authentic header
+        ops.append(eop(a, t, seq, ["b", 0] if seq == 0 else None, p=p, b=rng.randint(0, 1)))
+    else:
+        bl = None if seq == 0 else (["o", own[seq - 1]] if own and seq - 1 < len(own) and rng.random() < 0.6 else ["b", rng.randrange(3)])
+        ops.append(eop(a, t, seq, bl, p=p, b=1, c=rng.choice(AUTH_INVALID)))
+    return [t if rng.random() < 0.9 else 1 - t, len(ops) - 1]
+
+
+def random_case(rng, auth=0.0):
+    """auth: extra probability mass of authentic-but-rejected imports (0 = the original mix)."""
     na = 3
     ops = []
     chains = {}
     for a in (1, 2):
         for t in (0, 1):
             if rng.random() < 0.7:
-                n = rng.randint(1, 4)
+                n = rng.randint(1, 4 if not auth else 6)
                 chains[(a, t)] = ext_chain(ops, a, t, n, prune_at=tuple(k for k in range(1, n) if rng.random() < 0.3))
     steps = []
     cursors = {k: 0 for k in chains}
+    # cumulative thresholds: honest import, forged import, authentic-but-rejected import, publish/prune, replay
+    th_forged, th_auth, th_pub = (0.70, 0.70, 0.92) if not auth else (0.55, 0.55 + auth + 0.05, 0.94)
     for _ in range(rng.randint(4, 10)):
         r = rng.random()
         if r < 0.45 and chains:
@@ -121,7 +301,7 @@ def random_case(rng):
                 cursors[k] += 1
             else:
                 steps.append(["i", rng.choice([k[1], 1 - k[1]]) if rng.random() < 0.2 else k[1], rng.choice(chains[k])])
-        elif r < 0.70:
+        elif r < th_forged:
             # forged operation: claims an existing author (or the node), prune flag mostly set
             a = rng.choice([0, 1, 2])
             t = rng.choice([0, 1])
@@ -129,7 +309,9 @@ def random_case(rng):
             ops.append(eop(a, t, seq, None if seq == 0 else ["b", rng.randrange(3)], p=1 if rng.random() < 0.8 else 0,
                            b=rng.randint(0, 1), c=rng.choice([1, 2, 5])))
             steps.append(["i", t, len(ops) - 1])
-        elif r < 0.92:
+        elif r < th_auth:
+            steps.append(["i"] + authentic_invalid_op(rng, ops, chains))
+        elif r < th_pub:
             steps.append(["p", rng.choice([0, 1]), 1 if rng.random() < 0.3 else 0, 1 if rng.random() < 0.8 else 0])
             if steps[-1][2] == 0:
                 steps[-1][3] = 1
@@ -140,12 +322,16 @@ def random_case(rng):
 
 def gen(tier, rng):
     yield from fixed_cases()
+    yield from authentic_cases()
     for _ in range(40 if tier == "quick" else 400):
         yield random_case(rng)
+    for _ in range(10 if tier == "quick" else 150):
+        yield random_case(rng, auth=0.2)
 
 
 def harness_line(case):
-    ops = ";".join("%d,%d,%d,%s,%d,%d,%d" % (o["a"], o["t"], o["seq"], L._bl(o["bl"]), o["p"], o["b"], o["c"]) for o in case["ops"])
+    ops = ";".join("%d,%d,%d,%s,%d,%d,%d" % (o["a"], o["t"], o["seq"], L._bl(o["bl"]), o["p"], o["b"], o["c"])
+                   + ("" if o.get("src") is None else ",%d" % o["src"]) for o in case["ops"])
     steps = []
     for s in case["steps"]:
         if s[0] == "i":
@@ -160,13 +346,15 @@ def harness_line(case):
 def coq_steps(case):
     out = []
     published = 0
+    res = resolve(case["ops"])
     for s in case["steps"]:
         if s[0] == "i":
             o = case["ops"][s[2]]
+            m = res[s[2]]
             bl = o["bl"]
-            blnum = None if bl is None else (bl[1] + 1 if bl[0] == "o" else 900 + bl[1])
-            r = {"a": o["a"], "l": s[1], "seq": o["seq"], "id": s[2] + 1, "hh": s[2] + 1, "bl": blnum, "p": o["p"], "body": o["b"],
-                 "valid": valid(o)}
+            blnum = None if bl is None else (res[bl[1]]["hh"] if bl[0] == "o" else 900 + bl[1])
+            r = {"a": o["a"], "l": s[1], "seq": o["seq"], "id": m["hh"], "hh": m["hh"], "bl": blnum, "p": o["p"], "body": m["body"],
+                 "valid": m["valid"]}
             out.append("NImport %s" % L.coq_op(r))
         elif s[0] == "p":
             out.append("NPublish %s %s %s %s" % (L.N(s[1]), L.B(s[2]), L.B(s[3]), L.N(501 + published)))
@@ -182,7 +370,7 @@ def coq_model(case):
 
 def agree(case, impl, model):
     # the implementation line starts with the validate_operation bits of the operation list
-    bits = "".join("1" if valid(o) else "0" for o in case["ops"])
+    bits = "".join("1" if m["valid"] else "0" for m in resolve(case["ops"]))
     return impl == ("V=%s" % bits) + (" ; " + model if model else "")
 
 
@@ -196,20 +384,30 @@ def coq_oracle(case, impl):
     return "check 0%%N %s [%s]" % (coq_steps(case), ";".join(obs))
 
 
+def would_delete(prev, o, l):
+    """Rows a log-prune for o (imported through the stream of topic l) would delete from the dumped state prev."""
+    return [r for r in prev if r["a"] == o["a"] and r["l"] == l and r["seq"] < o["seq"]]
+
+
 def nontrivial(case, impl):
     try:
         _bits, steps = L.parse_impl(impl)
     except Exception:
         return False
+    res = resolve(case["ops"])
     prev = []
-    for s, (res, rows, _h) in zip(case["steps"], steps):
+    for s, (r, rows, _h) in zip(case["steps"], steps):
         if s[0] == "i":
             o = case["ops"][s[2]]
-            in_log = [r for r in prev if r["a"] == o["a"] and r["l"] == s[1]]
-            others = [r for r in prev if not (r["a"] == o["a"] and r["l"] == s[1])]
-            if o["p"] and not valid(o) and in_log:
+            v = res[s[2]]["valid"]
+            in_log = [x for x in prev if x["a"] == o["a"] and x["l"] == s[1]]
+            others = [x for x in prev if not (x["a"] == o["a"] and x["l"] == s[1])]
+            if o["p"] and not v and in_log:
                 return True
-            if o["p"] and valid(o) and res == "ok" and others and any(r["seq"] < o["seq"] for r in in_log):
+            # an authentic prune-flagged operation that was rejected while there was something for its prune request to delete
+            if o["p"] and r == "fail" and would_delete(prev, o, s[1]):
+                return True
+            if o["p"] and v and r == "ok" and others and any(x["seq"] < o["seq"] for x in in_log):
                 return True
         prev = rows
     return False
@@ -222,18 +420,51 @@ def shrink(case):
 
 
 def distribution(cases, impl):
-    kinds = {"import_valid": 0, "import_forged": 0, "publish": 0, "prune": 0, "replay": 0}
+    kinds = {"import_valid": 0, "import_forged": 0, "import_authentic_invalid": 0, "publish": 0, "prune": 0, "replay": 0}
+    # rejected prune-flagged imports by class; "..._live" = the store held entries the prune request would have deleted
+    rej = {"forged": 0, "forged_live": 0, "authentic_invalid": 0, "authentic_invalid_live": 0,
+           "valid_rejected_by_log_integrity": 0, "valid_rejected_by_log_integrity_live": 0}
+    by_c = {}
     fails = 0
+    two_log_prunes = 0
     for i, c in enumerate(cases):
-        for s in c["steps"]:
+        res = resolve(c["ops"])
+        try:
+            _bits, steps = L.parse_impl(impl.get(i) or "")
+        except Exception:
+            steps = []
+        prev = []
+        pruned_logs = set()
+        for k, s in enumerate(c["steps"]):
+            r, rows = (steps[k][0], steps[k][1]) if k < len(steps) else (None, prev)
             if s[0] == "i":
-                kinds["import_valid" if valid(c["ops"][s[2]]) else "import_forged"] += 1
+                o = c["ops"][s[2]]
+                cl = klass(o, res[s[2]]["valid"])
+                kinds["import_" + cl] += 1
+                if o["p"] and r == "fail":
+                    key = "valid_rejected_by_log_integrity" if cl == "valid" else cl
+                    rej[key] += 1
+                    if would_delete(prev, o, s[1]):
+                        rej[key + "_live"] += 1
+                    if cl == "authentic_invalid":
+                        tag = "c%d" % o["c"] if o["c"] else "header"
+                        by_c[tag] = by_c.get(tag, 0) + 1
+                if o["p"] and r == "ok" and would_delete(prev, o, s[1]):
+                    pruned_logs.add((o["a"], s[1]))
             elif s[0] == "p":
                 kinds["prune" if s[2] else "publish"] += 1
+                if s[2] and r == "ok" and any(x["a"] == 0 and x["l"] == s[1] for x in prev):
+                    pruned_logs.add((0, s[1]))
             else:
                 kinds["replay"] += 1
+            prev = rows
+        if any((a, 0) in pruned_logs and (a, 1) in pruned_logs for a in range(c["na"])):
+            two_log_prunes += 1
         fails += (impl.get(i) or "").count("fail/")
     kinds["steps_reported_failed"] = fails
+    kinds["rejected_prune_flagged_imports"] = rej
+    kinds["authentic_invalid_rejections_by_kind"] = dict(sorted(by_c.items()))
+    kinds["cases_one_author_pruning_in_two_logs"] = two_log_prunes
     return kinds
 
 
